@@ -121,7 +121,7 @@ def tlv_walk(sim, img, start, end, reserved=()):
 def build(sim, typ):
     """-> (tags list, physical read units, description, world kwargs)"""
     kind = sim.wpick("kind", [(4, "mutated"), (2, "random"), (2, "activation"), (2, "palette"), (1, "empty")] +
-                     ([(2, "tlvwalk")] if typ in ("t1", "t2") else []))
+                     ([(2, "tlvwalk"), (2, "valid")] if typ in ("t1", "t2") else []))
     d = {"type": typ, "kind": kind}
     if typ == "t2":
         case = gen.gen_t2(sim)
@@ -132,12 +132,15 @@ def build(sim, typ):
         if kind == "mutated":
             img = _mut(sim, img, 12, min(len(img), 16 + 40))
             if sim.chance("cc.size", 0.3):
-                img[14] = sim.pick("cc.sizeval", [0xFF, 0x00, 0x7F, 0x80, len(img) // 8, len(img) // 8 + 1])
+                img[14] = sim.pick("cc.sizeval", [0xFF, 0x00, 0x7F, 0x80, min(255, len(img) // 8), min(255, len(img) // 8 + 1)])
         elif kind == "random":
             rnd = _random.Random(sim.choose("rnd", 1 << 30))
             img = bytearray(rnd.randbytes(len(img)))
             if sim.chance("keepcc", 0.7):
                 img[12], img[13] = 0xE1, 0x10
+        elif kind == "valid":
+            d["image"] = img          # a well-formed layout as it is: what is read must be what the reference reading finds
+            d["layout"] = case.describe()
         elif kind == "tlvwalk":
             img[12:16] = bytes([0xE1, 0x10, img[14], 0x00])
             for a in range(16 + img[14] * 8, len(img)):
@@ -162,13 +165,16 @@ def build(sim, typ):
         if kind == "mutated":
             img = _mut(sim, img, 8, min(len(img), 60))
             if sim.chance("cc.size", 0.3):
-                img[10] = sim.pick("cc.sizeval", [0xFF, 0x00, 0x0E, 0x3F, 0x7F, len(img) // 8])
+                img[10] = sim.pick("cc.sizeval", [0xFF, 0x00, 0x0E, 0x3F, 0x7F, min(255, len(img) // 8)])
         elif kind == "random":
             img = bytearray(_random.Random(sim.choose("rnd", 1 << 30)).randbytes(len(img)))
             if sim.chance("keepcc", 0.7):
                 img[8], img[9] = 0xE1, 0x10
         elif kind == "activation":
             hr = bytes([sim.pick("hr0", [0x11, 0x12, 0x10, 0x1F, 0x13]), sim.choose("hr1", 256)])
+        elif kind == "valid":
+            d["image"] = img
+            d["layout"] = case.describe()
         elif kind == "tlvwalk":
             img[8:12] = bytes([0xE1, 0x10, img[10], 0x00])
             end = (img[10] + 1) * 8
@@ -410,12 +416,16 @@ def run_one(sim, params):
                     inside = ln == 0 or (ref.get("status") == "ok" and ref["last"] <= ref["end"])
                     sim.probe("walk.object_inside" if inside else "walk.object_outside")
                     if not inside:
-                        raise Violation("outside-area", "%s %s" % (typ, desc["walk"]["form"]),
+                        raise Violation("outside-area", "%s %s" % (typ, desc.get("walk", {}).get("form", desc["kind"])),
                                         "NDEF object (%d octets, capacity %d) for a message TLV at %d that does not lie inside the "
                                         "data area ending at %s (reference reading: %s, value ends at %s); %r"
-                                        % (ln, cap, desc["walk"]["ndef_at"], ref.get("end"), ref.get("status"), ref.get("last"), desc))
+                                        % (ln, cap, ref.get("offset"), ref.get("end"), ref.get("status"), ref.get("last"), desc))
                     if ln and bytes(octets) != ref["value"]:
-                        raise Violation("octets", typ, "NDEF octets differ from the reference reading of the memory; %r" % (desc,))
+                        bad = next((i for i in range(min(ln, len(ref["value"]))) if octets[i] != ref["value"][i]), min(ln, len(ref["value"])))
+                        raise Violation("octets", "%s %s" % (typ, desc["kind"]),
+                                        "NDEF octets (%d) differ from the reference reading of the memory (%d octets, reserved bytes "
+                                        "%r...) from index %d on: bytes that do not belong to the message area were returned; %r"
+                                        % (ln, len(ref["value"]), sorted(ref.get("reserved", ()))[:12], bad, desc))
         if w.device.removed:
             sim.probe("stopped")
             sim.fault("tag_stops_answering")
